@@ -302,7 +302,7 @@ func (g *Gen) Schema(depth int) M {
 		}
 	}
 	if depth > 0 && g.p(g.Exotic) {
-		ex := g.pick([]string{"anyOf", "oneOf", "not", "patternProperties", "definitions", "additionalItems"})
+		ex := g.pick([]string{"anyOf", "oneOf", "not", "patternProperties", "definitions", "additionalItems", "dependencies"})
 		g.hit("schema:exotic:" + ex)
 		switch ex {
 		case "anyOf", "oneOf":
@@ -319,7 +319,15 @@ func (g *Gen) Schema(depth int) M {
 			for i, k := 0, 1+g.n(3); i < k; i++ {
 				pp[g.pick(patterns)] = g.Schema(depth - 1)
 			}
+			if g.p(0.4) {
+				// two entries that hold complex inline schemas of different shapes
+				pp["^o1"] = M{"type": "object", "properties": M{"first": M{"type": "string"}}}
+				pp["^o2"] = M{"type": "object", "properties": M{"second": M{"type": "integer"}}}
+			}
 			s["patternProperties"] = pp
+		case "dependencies":
+			// both forms of the keyword: a list of property names, a schema (the analyzer looks at neither)
+			s["dependencies"] = M{"a": []any{"b", "c"}, "d": M{"type": "object", "required": []any{"e"}}}
 		case "definitions":
 			nd := M{}
 			for _, nm := range g.distinctNames(1 + g.n(3)) {
